@@ -250,7 +250,7 @@ pub fn nontrivial_rule(prop: &str) -> String {
 pub fn assumptions(prop: &str) -> Vec<String> {
     let mut v = vec![
         "seeded sampling, not enumeration: a clean batch is evidence, not proof".to_string(),
-        "the seams in /repo/src/verif.rs (cfg bpaf_verif) are the only route from bpaf to the environment, argv, stdout/stderr and process::exit; asserted by a source scan in ./check".to_string(),
+        "the seams in /repo/src/verif.rs (cfg bpaf_verif) carry every access of bpaf to the environment, argv, stdout/stderr and process::exit; accesses that bypass them are not assumed away but looked for: canary variables in the worker's real environment flipped together with the simulated ones, missing bytes on the simulated streams, worker death on a real exit, and the real-child tier of C11".to_string(),
         "generated definitions respect bpaf's documented usage rules and pass check_invariants".to_string(),
     ];
     if prop == "C11" {
